@@ -116,7 +116,7 @@ func (g *scopeGen) funcBody(head string) {
 }
 
 func (g *scopeGen) stat() {
-	k := g.r.Intn(29)
+	k := g.r.Intn(31)
 	if g.depth >= 4 && k >= 12 && k <= 20 {
 		k = g.r.Intn(10)
 	}
@@ -279,6 +279,24 @@ func (g *scopeGen) stat() {
 		} else {
 			g.line(t + []string{".f", ".f.g", "[\"k\"]", "[1]"}[g.r.Intn(4)] + " = " + g.exp(1))
 		}
+	case 29:
+		// a variable written right next to a key of the same name, no spaces: the cursor on the variable is one
+		// column away from the key
+		n, t := g.useName(), g.useName()
+		if t == "print" {
+			t = "G1"
+		}
+		if n == "print" {
+			n = "G1"
+		}
+		g.line(t + "." + n + "=" + n)
+	case 30:
+		n := g.useName()
+		if n == "print" {
+			n = "G1"
+		}
+		g.line("local " + g.name() + " = {" + n + "=" + n + "," + n + "=" + n + "}")
+		g.line("print(" + n + "." + n + ")")
 	default:
 		g.line("local " + g.name() + ", " + g.name())
 	}
